@@ -21,8 +21,8 @@
    0 / 1 / 2+ bytes: C03_line_length_observable is the witness (Redact() output differs between
    "\na" and "\nbc": the engine glues a one-byte line to the previous one).  That is a
    length side channel of one bit per line, not content; it is stated, not hidden. *)
-From Errv Require Import Base.Str Redact.Markers Redact.Buffer Model.Err Model.Sem Model.Report
-     Proofs.RedactFacts Proofs.RedactWf Proofs.EngineWf Proofs.EngineNI.
+From Errv Require Import Base.Str Redact.Markers Redact.Buffer Model.Err Model.Sem Model.Report Model.Details Model.Codec
+     Proofs.RedactFacts Proofs.RedactWf Proofs.EngineWf Proofs.EngineNI Proofs.DetailsNI.
 
 (* ---- non-interference for ARBITRARY BYTES (Proofs/RedactWf.v): what Redact()
    leaves of a printf call does not depend on the content of an unsafe argument,
@@ -86,6 +86,45 @@ Theorem C03_line_length_observable :
   redact (fmt_red_short e1) = m_redacted /\ redact (fmt_red_short e2) = nl :: m_redacted.
 Proof. exact ni_short_false_shape. Qed.
 Print Assumptions C03_line_length_observable.
+
+(* ---- the other PII-free outputs (Proofs/DetailsNI.v): safe details, the reportable part of the wire encoding,
+   the Sentry report.  [ueq'] = [ueq] plus equality of the strings a layer DECLARES safe without printing them
+   (SafeDetails() of the harness user types, the redacted tags a context layer received); [ueq''] = [ueq'] plus
+   equality of the two payloads an encoder declares reportable although the formatter prints them as unsafe
+   arguments (the HTTP status code, the message of an errno received from another platform): integers / OS
+   table texts, recorded below as witnesses, not user strings ---- *)
+Theorem C03_safe_details : forall e1 e2, ueq' e1 e2 -> vb_ok e1 -> vb_ok e2 ->
+  get_safe_details e1 = get_safe_details e2 /\ get_all_safe_details e1 = get_all_safe_details e2.
+Proof. intros e1 e2 U V1 V2. split; [exact (ni_safe_details e1 e2 U V1 V2)|exact (ni_all_safe_details e1 e2 U V1 V2)]. Qed.
+Print Assumptions C03_safe_details.
+
+Theorem C03_report : forall e1 e2, ueq' e1 e2 -> vb_ok e1 -> vb_ok e2 -> glue_top e1 -> glue_top e2 ->
+  build_report e1 = build_report e2.
+Proof. exact ni_report. Qed.
+Print Assumptions C03_report.
+
+Theorem C03_wire_reportable : forall e1 e2, ueq'' e1 e2 -> vb_ok e1 -> vb_ok e2 ->
+  enc_safe (encode e1) = enc_safe (encode e2).
+Proof. exact ni_encode. Qed.
+Print Assumptions C03_wire_reportable.
+
+(* the extra equalities of [ueq''] are needed: the HTTP code is printed as an unsafe argument by the formatter
+   but declared reportable by the encoder ("HTTP 404") *)
+Theorem C03_wire_http_code_witness :
+  let e1 := http_e 404 in let e2 := http_e 500 in
+  ueq' e1 e2 /\ vb_ok e1 /\ vb_ok e2 /\ glue_top e1 /\ glue_top e2 /\
+  redact (fmt_red_verbose e1) = redact (fmt_red_verbose e2) /\
+  get_all_safe_details e1 = get_all_safe_details e2 /\
+  build_report e1 = build_report e2 /\
+  dt_rep (enc_details (encode e1)) = [lit "HTTP 404"] /\
+  dt_rep (enc_details (encode e2)) = [lit "HTTP 500"] /\
+  enc_safe (encode e1) <> enc_safe (encode e2).
+Proof. exact ni_encode_refuted_http. Qed.
+Print Assumptions C03_wire_http_code_witness.
+
+Example C03_details_example :
+  ueq'' ex_e1 ex_e2.
+Proof. exact ex_ueq''. Qed.
 
 (* an evaluated instance: hint, prefix, secondary error, opaque leaf with different unsafe contents *)
 Example C03_engine_example :
